@@ -1,0 +1,28 @@
+//go:build verif
+
+// Verification-only exports for property C09 (randomized fingerprints). Add-only: nothing in this
+// file is compiled without the tag, and no existing line of the package is changed by it.
+
+package tls
+
+// VerifGenerateRandomizedSpec exposes generateRandomizedSpec (id.Seed / id.Weights are filled in
+// exactly as the unexported function does).
+func VerifGenerateRandomizedSpec(id *ClientHelloID, serverName string, nextProtos []string) (ClientHelloSpec, error) {
+	return generateRandomizedSpec(id, serverName, nextProtos)
+}
+
+// VerifCipherSuiteTable returns, in table order, the ids of the package-level cipherSuites table
+// (the one shuffledCiphers ranges over) and whether each row lacks the suiteTLS12 flag
+// ("obsolete" in shuffledCiphers' terms).
+func VerifCipherSuiteTable() (ids []uint16, obsolete []bool) {
+	for _, s := range cipherSuites {
+		ids = append(ids, s.id)
+		obsolete = append(obsolete, s.flags&suiteTLS12 == 0)
+	}
+	return
+}
+
+// VerifDefaultCipherSuitesTLS13 returns a copy of defaultCipherSuitesTLS13.
+func VerifDefaultCipherSuitesTLS13() []uint16 {
+	return append([]uint16(nil), defaultCipherSuitesTLS13...)
+}
